@@ -44,7 +44,7 @@ class P(Profile):
     wait_exit = 0.2
     startsecs = (0, 1, 6, 12, 12)
     startretries = (0, 1)
-    fault_ops = ('crash', 'restart', 'crash_target', 'crash_target', 'crash_master')
+    fault_ops = ('crash', 'restart', 'crash_target', 'crash_target', 'crash_master', 'boot')
     proc_ops = ('exit', 'swallow', 'swallow')
     user_ops = ('rpc_app', 'rpc_app', 'rpc_app')
     op_rate = 0.3
@@ -60,7 +60,7 @@ class P(Profile):
     behaviour_kinds = ('run', 'early_exit', 'early_exit', 'exit_ok', 'exit_bad', 'spawn_error', 'spawn_error', 'slow_stop')
     auto_fence = (False,)
     managed = 0.9
-    late_boot = 0.1
+    late_boot = 0.35
     loads = (0, 10, 40)
 
 
@@ -253,6 +253,26 @@ class StartOrderMonitor(Monitor):
                                       f'{q["namespec"]} (start_sequence {q["start_sequence"]}{", wait_exit" if q["wait_exit"] else ""}) '
                                       f'requested at t={rec["time"]} on {tq.nick} has not finished starting (truth '
                                       f'{tq.truth().get(q["namespec"])}, request {rec["arrived"] or "in flight"})'))
+        # (a2) whoever requested it: a lower sequence that is STARTING / BACKOFF in truth AND for the emitter
+        a_view = inst.supvisors.context.applications.get(app['name'])
+        for q in app['programs']:
+            if q['namespec'] == namespec or not 0 < q['start_sequence'] < p['start_sequence'] or a_view is None:
+                continue
+            pv = a_view.processes.get(q['name'])
+            if pv is None:
+                continue
+            for peer in w.instances:
+                if not peer.alive or peer.truth().get(q['namespec']) not in (STARTING, BACKOFF):
+                    continue
+                info = pv.info_map.get(peer.identifier)
+                status = inst.supvisors.context.instances.get(peer.identifier)
+                if info is not None and int(info.get('state', 0)) in (STARTING, BACKOFF) and status is not None \
+                        and status.state.name == 'RUNNING' and pv.forced_state is None \
+                        and not any(f[0] == 'start-order:process' for f in self.findings[-3:]):
+                    self.findings.append(('start-order:process', f'{where} (start_sequence {p["start_sequence"]}) while '
+                                          f'{q["namespec"]} (start_sequence {q["start_sequence"]}) is still '
+                                          f'{"STARTING" if info["state"] == STARTING else "BACKOFF"} on {peer.nick}, in truth '
+                                          f'and for {inst.nick}'))
         if job is not None:
             if 0 < p['start_sequence'] < job.max_seq:
                 self.findings.append(('start-order:sequence-decreases-in-job', f'{where} (start_sequence '
